@@ -288,3 +288,17 @@ Definition spec_resolve (fs : fsys) (cur name : list N) : option (list N * list 
   end.
 
 Definition cls_key (c : cls) : list N * list N := (c_ns c, c_name c).
+
+(* a recorded reference agrees with the documented resolution *)
+Definition link_ok (fs : fsys) (l : link) : Prop :=
+  option_map cls_key (l_target l) = spec_resolve fs (l_ns l) (l_name l).
+
+(* witnesses of the known finding (corpus/C25/cycle_silent.json, cycle_unexisting.json) *)
+Definition ex_rule (n : list N) (refs : list (list N)) : rule := {| rname := n; rrefs := refs; rcrefs := [] |}.
+Definition ex_silent : fsys :=
+  [ ([97], {| gimports := [[98]]; grules := [ex_rule [77] [[88]; [89]]; ex_rule [88] []] |});
+    ([98], {| gimports := [[97]; [99]]; grules := [ex_rule [89] [[88]]] |});
+    ([99], {| gimports := []; grules := [ex_rule [88] []] |}) ]%N.
+Definition ex_unexisting : fsys :=
+  [ ([97], {| gimports := [[98]]; grules := [ex_rule [77] [[88]; [89]]; ex_rule [88] []] |});
+    ([98], {| gimports := [[97]]; grules := [ex_rule [89] [[88]]] |}) ]%N.
